@@ -248,9 +248,9 @@ Definition wit_store : file_store :=
 Definition wit_ops : list wop := [W (s "type "); WF (s "F") (mkpos 0 9 2 false) (Some (s "F"))].
 
 Lemma imported_fragment_source_index_refuted_lemma :
-  exists s gs g,
-    sw_run (Some (file_indices wit_store (Some 1))) wit_ops = Some s /\
-    decode_mappings (mbuf (sw_map s)) = Some gs /\ In g gs /\
+  exists st gs g,
+    sw_run (Some (file_indices wit_store (Some 1))) wit_ops = Some st /\
+    decode_mappings (mbuf (sw_map st)) = Some gs /\ In g gs /\
     g_orig g = Some ((-1)%Z, 0%Z, 9%Z, Some 0%Z) /\
     sources_of wit_store (Some 1) = [s "/p/schema.graphql"; s "/p/main.graphql"].
 Proof.
@@ -269,10 +269,10 @@ Qed.
 
 (** the same mechanism at the level of the writer alone: any file index the mapper sends to usize::MAX *)
 Lemma unmapped_file_index_refuted_lemma :
-  exists s gs,
-    sw_run (Some [0; USIZE_MAX]) [WF (s "F") (mkpos 0 9 1 false) (Some (s "F"))] = Some s /\
-    mbuf (sw_map s) = s ",ADAASA,CAAC"%string /\
-    decode_mappings (mbuf (sw_map s)) = Some gs /\
+  exists st gs,
+    sw_run (Some [0; USIZE_MAX]) [WF (s "F") (mkpos 0 9 1 false) (Some (s "F"))] = Some st /\
+    mbuf (sw_map st) = s ",ADASA,CAAC" /\
+    decode_mappings (mbuf (sw_map st)) = Some gs /\
     map g_orig gs = [Some ((-1)%Z, 0%Z, 9%Z, Some 0%Z); Some ((-1)%Z, 0%Z, 10%Z, None)].
 Proof.
   eexists. eexists. split; [vm_compute; reflexivity|]. split; [vm_compute; reflexivity|].
